@@ -32,6 +32,7 @@ EXPLANATION = (
     "(an IS key is a number on both sides). (per-entity) C-FIND must answer once per entity "
     "of the query level. Not decided: SQL collation/engine behaviour beyond SQLite's documented LIKE / "
     "GLOB, optional keys, sequence matching."
+    ' Fifth round (end): (keys-compose) identifiers mixing range / wildcard / list / universal / single-value keys, in both key orders, for every level of both Find models: search() filters by the union of the per-key conditions.'
 )
 
 TEXT_VR = ["AE", "CS", "LO", "LT", "PN", "SH", "ST", "UC", "UR", "UT"]
